@@ -35,7 +35,8 @@ type simPrincipal struct {
 type simPolicy struct {
 	Preauth      bool     // answer PREAUTH_REQUIRED until a valid PA-ENC-TIMESTAMP arrives
 	Hints        []string // order of hints in the PREAUTH_REQUIRED e-data: "info2", "info", "pwsalt"
-	Lifetime     time.Duration
+	Lifetime     time.Duration // maximum lifetime of service tickets
+	TGTLifetime  time.Duration // maximum lifetime of ticket-granting tickets (0: same as Lifetime)
 	RenewLife    time.Duration // 0: never renewable
 	OmitStart    bool          // omit starttime in tickets and replies (legal: defaults to authtime)
 	TGSEncTag25  bool          // tag the TGS-REP enc-part 25 (some implementations do; RFC 4120 5.4.2)
@@ -327,7 +328,11 @@ func (k *simKDC) issue(isAS bool, realm string, cname types.PrincipalName, creal
 	}
 	sess := types.EncryptionKey{KeyType: sessEt, KeyValue: randKeyCrypto(sessEt)}
 	now := time.Now().UTC().Truncate(time.Second)
-	end := now.Add(k.policy.Lifetime)
+	life := k.policy.Lifetime
+	if len(sname.NameString) > 0 && sname.NameString[0] == "krbtgt" && k.policy.TGTLifetime > 0 {
+		life = k.policy.TGTLifetime
+	}
+	end := now.Add(life)
 	if !body.Till.IsZero() && body.Till.Before(end) && body.Till.After(now) {
 		end = body.Till.Truncate(time.Second)
 	}
